@@ -233,17 +233,19 @@ func fileInfo(name string, part *multipart.Part) os.FileInfo {
 		}
 	}
 
-	var secs, nsecs int64
+	// Only set a modification time when one was sent: the zero time.Time means
+	// "no modification time", which is not the same as the Unix epoch.
 	if v := params["mtime"]; v != nil {
-		secs, err = strconv.ParseInt(v[0], 10, 64)
+		secs, err := strconv.ParseInt(v[0], 10, 64)
 		if err != nil {
 			return &fi
 		}
+		var nsecs int64
+		if v := params["mtime-nsecs"]; v != nil {
+			nsecs, _ = strconv.ParseInt(v[0], 10, 64)
+		}
+		fi.mtime = time.Unix(secs, nsecs)
 	}
-	if v := params["mtime-nsecs"]; v != nil {
-		nsecs, _ = strconv.ParseInt(v[0], 10, 64)
-	}
-	fi.mtime = time.Unix(secs, nsecs)
 
 	return &fi
 }
